@@ -11,7 +11,7 @@ import (
 func init() {
 	register(&Check{
 		ID: "C16", Level: "exploration", QuickSecs: 150, ThoroughSecs: 1200,
-		Rule:        "grammars over {'a',\"\",[ab],.} x {?,*,+,&,!} x seq/choice up to N nodes (quick 4, thorough 5) INCLUDING repetitions with nullable bodies (\"\"*, (&'a')+, ('a'?)*), a recovery loop and left-recursive rules generated with -support-left-recursion (direct, indirect, and nullable-body repetitions inside leader and non-leader rules of a cycle); inputs over {a,b} up to L=2 (3); option sets {Memoize, Debug, Recover(false), AllowInvalidUTF8} (all 16 combinations quick: 8); for each the unbounded run (tick-capped) gives c = expressions evaluated, then EVERY budget n in 1..min(c,cap)+1 is run: the call returns, evaluates at most n expressions, reports 'max number of expressions parsed' (as the panic value under Recover(false)) iff the unbounded run needs more than n, and otherwise equals the unbounded observation; without Memoize/left recursion the unbounded count itself must equal the reference interpreter's number of expression evaluations (nothing escapes the budget). For the -optimize-parser build of every grammar the budgets {1, c/2, c-1, c, c+1} are run, each twice in one process (first and second call must agree; exhausted iff the standard build needs more). Non-trivial = a budget that is exhausted.",
+		Rule:        "grammars over {'a',\"\",[ab],.} x {?,*,+,&,!} x seq/choice up to N nodes (quick 4, thorough 5) INCLUDING repetitions with nullable bodies (\"\"*, (&'a')+, ('a'?)*), a recovery loop and left-recursive rules generated with -support-left-recursion (direct, indirect, and nullable-body repetitions inside leader and non-leader rules of a cycle); inputs over {a,b} up to L=2 (3); option sets {Memoize, Debug, Recover(false), AllowInvalidUTF8} (all 16 combinations quick: 8); for each the unbounded run (tick-capped) gives c = expressions evaluated, then EVERY budget n in 1..min(c,cap)+1 is run: the call returns, evaluates at most n expressions, reports 'max number of expressions parsed' (as the panic value under Recover(false)) iff the unbounded run needs more than n, and otherwise equals the unbounded observation; without Memoize/left recursion the unbounded count itself must equal the reference interpreter's number of expression evaluations (nothing escapes the budget). For the -optimize-parser build of every grammar the budgets {1, c/2, c-1, c, c+1} are run, each twice in one process (first and second call must agree; exhausted iff the standard build needs more). Non-trivial = a budget that is exhausted. Plus the cross family (cross.go, bodies <= 2 nodes - thorough a third of the 3-node bodies - generated plain, with -optimize-basic-latin, -optimize-grammar and as left-recursive variant).",
 		Assumptions: []string{"E1 loader", "tick cap (loop iterations / function entries) stands in for 'never returns'"},
 		Run:         runC16,
 	})
